@@ -24,10 +24,10 @@ import (
 )
 
 var (
-	c16Bindings  = []string{provider.PostBinding, provider.RedirectBinding, "urn:oasis:names:tc:SAML:2.0:bindings:HTTP-Artifact", "urn:example:other-binding"}
+	c16Bindings  = []string{provider.PostBinding, provider.RedirectBinding, "urn:oasis:names:tc:SAML:2.0:bindings:HTTP-Artifact", c16OtherBinding}
 	c16Indexes   = []string{"0", "1", "2", "7", "65535"}
 	c16Defaults  = []string{"", "true", "false", "1", "0"}
-	c16Requested = []string{"", provider.PostBinding, provider.RedirectBinding, "urn:oasis:names:tc:SAML:2.0:bindings:HTTP-Artifact", "urn:example:other-binding", "urn:example:unlisted"}
+	c16Requested = []string{"", provider.PostBinding, provider.RedirectBinding, "urn:oasis:names:tc:SAML:2.0:bindings:HTTP-Artifact", c16OtherBinding, "urn:example:unlisted"}
 )
 
 type C16Entry struct {
@@ -40,6 +40,9 @@ type C16Entry struct {
 type C16Case struct {
 	ACS       []C16Entry `json:"acs"`
 	Requested string     `json:"requested_binding"`
+	// Before, when set, is an earlier registration of the same service provider: end to end, a request is first sent under it,
+	// then the provider is re-registered with ACS and the request under test follows. Only the current registration counts.
+	Before []C16Entry `json:"earlier_registration,omitempty"`
 }
 
 func xsTrue(s string) bool { return s == "true" || s == "1" }
@@ -238,6 +241,10 @@ func TestC16Enum(t *testing.T) {
 	})
 }
 
+// c16OtherBinding is the "other" binding of the enumeration: a URI that differs from HTTP-POST only by letter case. URIs are
+// compared exactly, so for the statement it is simply a binding that is neither POST nor Redirect nor Artifact.
+const c16OtherBinding = "urn:oasis:names:tc:SAML:2.0:bindings:HTTP-Post"
+
 func genC16Case(t *rapid.T) C16Case {
 	n := rapid.IntRange(0, 6).Draw(t, "n")
 	c := C16Case{Requested: rapid.SampledFrom(c16Requested).Draw(t, "requested")}
@@ -249,6 +256,16 @@ func genC16Case(t *rapid.T) C16Case {
 			Location:  "https://sp.example/acs/" + strconv.Itoa(i),
 		})
 	}
+	if rapid.IntRange(0, 2).Draw(t, "reregistered") == 0 {
+		for i := 0; i < rapid.IntRange(1, 3).Draw(t, "nbefore"); i++ {
+			c.Before = append(c.Before, C16Entry{
+				Binding:   rapid.SampledFrom(c16Bindings[:2]).Draw(t, "bbinding"),
+				Index:     rapid.SampledFrom(c16Indexes).Draw(t, "bindex"),
+				IsDefault: rapid.SampledFrom(c16Defaults).Draw(t, "bisDefault"),
+				Location:  "https://sp.example/acs/earlier/" + strconv.Itoa(i),
+			})
+		}
+	}
 	return c
 }
 
@@ -256,25 +273,46 @@ func genC16Case(t *rapid.T) C16Case {
 // as XML attributes of the metadata) and compares the pair handed to storage with the reference selection.
 func c16EndToEnd(c C16Case) *ev.Violation {
 	sp := stdSP(0)
-	sp.ACS = nil
-	for _, e := range c.ACS {
-		d := e.IsDefault
-		if d == "" {
-			d = A
+	withACS := func(list []C16Entry) world.SPSpec {
+		out := sp
+		out.ACS = nil
+		for _, e := range list {
+			d := e.IsDefault
+			if d == "" {
+				d = A
+			}
+			out.ACS = append(out.ACS, world.ACSSpec{Binding: e.Binding, Location: e.Location, Index: e.Index, IsDefault: d})
 		}
-		sp.ACS = append(sp.ACS, world.ACSSpec{Binding: e.Binding, Location: e.Location, Index: e.Index, IsDefault: d})
+		return out
 	}
-	spec := world.Spec{IdP: world.DefaultIdP(), SPs: []world.SPSpec{sp}, Users: []world.UserSpec{stdUser(0)}}
+	current := withACS(c.ACS)
+	first := current
+	if len(c.Before) > 0 {
+		first = withACS(c.Before)
+	}
+	spec := world.Spec{IdP: world.DefaultIdP(), SPs: []world.SPSpec{first}, Users: []world.UserSpec{stdUser(0)}}
 	w := mustBuild(spec)
-	a := spsim.NewAuthnReq("_c16", sp.EntityID)
-	if c.Requested != "" {
-		a.ProtocolBinding = c.Requested
+	send := func(id string) obs.Reply {
+		a := spsim.NewAuthnReq(id, sp.EntityID)
+		if c.Requested != "" {
+			a.ProtocolBinding = c.Requested
+		}
+		hr, _, err := spsim.Encode(spec.IdP.Route("sso"), xt.Write(a.Tree(plainStyle), plainStyle.W), spsim.Transport{Binding: "post", Plus: true, Encoding: A, RelayState: "rs"}, nil)
+		if err != nil {
+			panic("harness: " + err.Error())
+		}
+		return obs.Do(w.Handler, hr)
 	}
-	hr, _, err := spsim.Encode(spec.IdP.Route("sso"), xt.Write(a.Tree(plainStyle), plainStyle.W), spsim.Transport{Binding: "post", Plus: true, Encoding: A, RelayState: "rs"}, nil)
-	if err != nil {
-		panic("harness: " + err.Error())
+	if len(c.Before) > 0 {
+		if rep := send("_c16-earlier"); rep.Panic != "" {
+			return ev.V("C16/panic", "handler panicked: %s", short(rep.Panic, 100))
+		}
+		if err := w.Store.ReplaceSP(current); err != nil {
+			panic("harness: " + err.Error())
+		}
+		w.Store.ResetLog()
 	}
-	rep := obs.Do(w.Handler, hr)
+	rep := send("_c16")
 	if rep.Panic != "" {
 		return ev.V("C16/panic", "handler panicked: %s", short(rep.Panic, 100))
 	}
